@@ -641,5 +641,18 @@ if __name__ == "__main__":
     import json
     import sys
     _ctx = _ProbeCtx()
+    if sys.argv[1].endswith(("fresh0", "fresh3")):
+        # the very first conversion of this process is the one of the nil uuid (then the same string again, twice)
+        import uuid as _uuid
+        _alpha = alphabet()
+        _first = short_uuid.uuid_to_short_str(_uuid.UUID(int=0))
+        if _first != _alpha[0] * 22:
+            _ctx.errors.append(("encoding-differs-from-model", [_first, 0, "the first conversion of the process"]))
+        for _k in range(2):
+            try:
+                if short_uuid.uuid_from_str(_alpha[0] * 22).int != 0 or short_uuid.uuid_from_str(str(_uuid.UUID(int=0))).int != 0:
+                    _ctx.errors.append(("decode-differs-from-model", ["uuid_from_str", 0, "the nil uuid"]))
+            except Exception as _err:
+                _ctx.errors.append(("decode-raises", ["uuid_from_str", 0, repr(_err)[:80]]))
     concurrent_roundtrips(_ctx, alphabet(), sys.argv[1], rounds=5)
     print(json.dumps({"errors": _ctx.errors, "counters": _ctx.counters}))
